@@ -100,6 +100,8 @@ def run_property(prop, tier):
     seed = int(os.environ.get("VERIF_SEED", "0") or 0)
     mod = importlib.import_module(f"vflib.props.{prop.lower()}")
     parts = mod.parts(tier)
+    if os.environ.get("VF_ONLY"):       # development aid: run only the named parts (evidence then describes a partial run)
+        parts = [p for p in parts if p.name in os.environ["VF_ONLY"].split(",")]
     meta = mod.META
     for old in glob.glob(os.path.join(OUT, "replays", f"{prop}-*.json")):
         os.remove(old)     # replay files belong to the run that wrote them
